@@ -196,3 +196,94 @@ Section Links.
     - apply S; auto.
   Qed.
 End Links.
+
+(* ---- where a path of names leads from dr, the binding of one more name is absent or NEW ----
+   (ghost invariant for the directories MkdirAll created: whatever stands at such a path later was
+   put there by the copier) *)
+Section NewBindings.
+  Variables (dr b : N).
+
+  Definition bind_new (f : fs) (d : N) (x : bytes) : Prop :=
+    match blookup x (dents f d) with Some c => b <= c | None => True end.
+  Definition gnew (f : fs) (cs : list bytes) (x : bytes) : Prop := forall d', chain f dr cs d' -> bind_new f d' x.
+  Definition keeps_new (f f' : fs) : Prop := forall cs x, gnew f cs x -> gnew f' cs x.
+
+  Lemma keeps_new_refl f : keeps_new f f. Proof. intros cs x H. exact H. Qed.
+  Lemma keeps_new_trans f1 f2 f3 : keeps_new f1 f2 -> keeps_new f2 f3 -> keeps_new f1 f3.
+  Proof. intros A B cs x H. apply B, A, H. Qed.
+
+  (* same entries, same directories: same chains *)
+  Lemma kn_same f f' : (forall j, dents f' j = dents f j) -> (forall j, is_dir f' j = is_dir f j) -> keeps_new f f'.
+  Proof.
+    intros Hd Hi cs x H d' Hc. unfold bind_new. rewrite Hd. apply H.
+    apply (chain_stable f' f (fun _ => False)); auto.
+    - intros j. rewrite Hi. auto.
+  Qed.
+
+  Lemma kn_del_ent f d x0 : NoDup (map fst (dents f d)) -> keeps_new f (del_ent f d x0).
+  Proof.
+    intros Hn. destruct (is_dir f d) eqn:Hd; [|rewrite del_ent_nondir; auto; apply keeps_new_refl].
+    assert (Hsub : forall j n c, blookup n (dents (del_ent f d x0) j) = Some c -> blookup n (dents f j) = Some c).
+    { intros j n c H. rewrite (del_ent_dents f d x0 j Hd) in H. destruct (N.eqb_spec j d) as [->|]; auto.
+      eapply blookup_bremove_sub; eauto. }
+    assert (Hch : forall a cs e, chain (del_ent f d x0) a cs e -> chain f a cs e).
+    { induction 1 as [d0 H0|d0 y i cs e Hb Hi Hc IH].
+      - constructor. rewrite is_dir_del_ent in H0. exact H0.
+      - econstructor; eauto. rewrite is_dir_del_ent in Hi. exact Hi. }
+    intros cs x H d' Hc. specialize (H d' (Hch _ _ _ Hc)). unfold bind_new in *.
+    destruct (blookup x (dents (del_ent f d x0) d')) as [c|] eqn:E; auto. rewrite (Hsub _ _ _ E) in H. exact H.
+  Qed.
+
+  Lemma kn_add_ent f d x0 i : is_dir f d = true -> is_dir f i = false -> b <= i -> keeps_new f (add_ent f d x0 i).
+  Proof.
+    intros Hd Hi Hbi.
+    assert (Hcase : forall j n c, blookup n (dents (add_ent f d x0 i) j) = Some c ->
+              blookup n (dents f j) = Some c \/ c = i).
+    { intros j n c H. rewrite (add_ent_dents f d x0 i j Hd) in H. destruct (N.eqb_spec j d) as [->|]; auto.
+      rewrite blookup_app in H. destruct (blookup n (dents f d)); auto.
+      simpl in H. destruct (bytes_eqb n x0); inversion H; auto. }
+    assert (Hch : forall a cs e, chain (add_ent f d x0 i) a cs e -> chain f a cs e).
+    { induction 1 as [d0 H0|d0 y j cs e Hb Hj Hc IH].
+      - constructor. rewrite is_dir_add_ent in H0. exact H0.
+      - rewrite is_dir_add_ent in Hj. destruct (Hcase _ _ _ Hb) as [K| ->]; [econstructor; eauto|congruence]. }
+    intros cs x H d' Hc. specialize (H d' (Hch _ _ _ Hc)). unfold bind_new in *.
+    destruct (blookup x (dents (add_ent f d x0 i) d')) as [c|] eqn:E; auto.
+    destruct (Hcase _ _ _ E) as [K| ->]; [rewrite K in H; exact H|exact Hbi].
+  Qed.
+
+  Lemma kn_create_at f r isdir k mode : alloc_ok f -> is_dir f (l_dir r) = true -> leaf_kind k -> b <= f_next f ->
+    keeps_new f (fst (create_at f r isdir k mode)).
+  Proof.
+    intros Ha Hd Hleaf Hb. set (f' := fst (create_at f r isdir k mode)). set (nw := f_next f).
+    pose proof (dir_lt_next f r Ha Hd) as Hlt.
+    assert (Hdents := fun j => create_at_dents f r isdir k mode Ha Hd j Hleaf). fold f' nw in Hdents.
+    assert (Hisdir := create_at_is_dir f r isdir k mode Ha Hd). fold f' nw in Hisdir.
+    assert (Hcase : forall j n c, blookup n (dents f' j) = Some c -> blookup n (dents f j) = Some c \/ c = nw).
+    { intros j n c H. rewrite Hdents in H. destruct (N.eqb_spec j (l_dir r)) as [->|].
+      - rewrite blookup_app in H. destruct (blookup n (dents f (l_dir r))); auto.
+        simpl in H. destruct (bytes_eqb n (l_name r)); inversion H; auto.
+      - destruct (N.eqb_spec j nw); [discriminate|auto]. }
+    assert (Hnw : dents f' nw = []).
+    { rewrite Hdents. destruct (N.eqb_spec nw (l_dir r)); [unfold nw in *; lia|]. rewrite N.eqb_refl. reflexivity. }
+    assert (Hch : forall a cs e, chain f' a cs e -> a <> nw -> chain f a cs e \/ e = nw).
+    { induction 1 as [d0 H0|d0 y j cs e Hbl Hj Hc IH]; intros Hne.
+      - left. constructor. rewrite Hisdir in H0. apply N.eqb_neq in Hne. rewrite Hne in H0. exact H0.
+      - destruct (N.eq_dec j nw) as [->|Hj2].
+        + right. inversion Hc as [|? ? ? ? ? Hb2]; subst; auto. rewrite Hnw in Hb2. discriminate.
+        + destruct (Hcase _ _ _ Hbl) as [K|K]; [|congruence].
+          destruct (IH Hj2) as [G|G]; auto. left. econstructor; eauto.
+          rewrite Hisdir in Hj. apply N.eqb_neq in Hj2. rewrite Hj2 in Hj. exact Hj. }
+    intros cs x H d' Hc. unfold bind_new.
+    destruct (N.eq_dec dr nw) as [E|Hne].
+    - (* dr itself would be the new inode: impossible, it has no entries and chains start there *)
+      destruct (blookup x (dents f' d')) as [c|] eqn:Eb; auto.
+      destruct (Hcase _ _ _ Eb) as [K| ->]; [|exact Hb].
+      assert (d' = nw).
+      { inversion Hc as [|? ? ? ? ? Hb2]; subst; auto. rewrite E, Hnw in Hb2. discriminate. }
+      subst d'. pose proof (dents_some_dir _ _ _ _ K) as Hx. apply is_dir_exists in Hx. exfalso. apply Hx. apply Ha. unfold nw. lia.
+    - destruct (Hch _ _ _ Hc Hne) as [G| ->]; [|rewrite Hnw; exact I].
+      specialize (H d' G). unfold bind_new in H.
+      destruct (blookup x (dents f' d')) as [c|] eqn:Eb; auto.
+      destruct (Hcase _ _ _ Eb) as [K| ->]; [rewrite K in H; exact H|exact Hb].
+  Qed.
+End NewBindings.
